@@ -3,6 +3,7 @@ package govc
 // Contract language: evaluation of spec expressions to SMT terms over a symbolic state.
 
 import (
+	"os"
 	"fmt"
 	"go/types"
 	"math/big"
@@ -416,7 +417,7 @@ func (env *SpecEnv) evalQuant(e EQuant) SV {
 	body := sub.evalBool(e.Body)
 	var t *Term
 	if e.Kind == "forall" {
-		t = c.Forall(bvs, c.Implies(c.And(rng...), body))
+		t = c.Forall(bvs, c.Implies(c.And(rng...), body), x.indexPatterns(body, bvs)...)
 	} else {
 		t = c.Exists(bvs, c.And(append(rng, body)...))
 	}
@@ -427,16 +428,61 @@ func (env *SpecEnv) evalQuant(e EQuant) SV {
 
 type sumInfo struct {
 	fn    *FunDecl
+	lim   *FunDecl
+	params []*Term
+	points []sumPoint
+	done   map[string]bool
 	lo    *Term
 	bv    *Term
 	body  *Term // f(bv)
 	pos   string
 }
 
-// evalSum: sum(j in [lo,hi): f(j)) becomes S(hi) for a fresh S with
-// S(lo)=0, S(n+1)=S(n)+f(n) for n>=lo. Sums from the same source position over
-// different states are related by extensionality (a meta-theorem proved by
-// induction on n, part of the trusted base).
+// freeBoundVars lists the bound-variable leaves occurring free in t (in order
+// of first occurrence), excluding variables bound by quantifiers inside t.
+func freeBoundVars(t *Term) []*Term {
+	var out []*Term
+	seen := map[string]bool{}
+	var rec func(t *Term, bound map[string]bool)
+	rec = func(t *Term, bound map[string]bool) {
+		if !t.open {
+			return
+		}
+		if t.isVar {
+			if !bound[t.op] && !seen[t.op] {
+				seen[t.op] = true
+				out = append(out, t)
+			}
+			return
+		}
+		if len(t.vars) > 0 {
+			nb := map[string]bool{}
+			for k := range bound {
+				nb[k] = true
+			}
+			for _, v := range t.vars {
+				nb[v.Name] = true
+			}
+			rec(t.args[0], nb)
+			return
+		}
+		for _, a := range t.args {
+			rec(a, bound)
+		}
+	}
+	rec(t, map[string]bool{})
+	return out
+}
+
+// evalSum: sum(j in [lo,hi): f(j)) becomes S(p.., hi) for a fresh S with
+// S(p, lo)=0 and S(p, n)=S(p, n-1)+f(p, n-1) for n>lo, where p are the outer
+// bound variables f mentions (e.g. a record index). S is what specifications
+// mention; Slim is its "limited" synonym: unfolding S(n) yields Slim(n-1),
+// which does not unfold again (no matching loops). Sums from the same source
+// position over different states are related by extensionality; partial sums
+// of non-negative summands are monotone. Unfolding is definitional;
+// extensionality and monotonicity are meta-theorems (induction on n) and part
+// of the trusted base.
 func (env *SpecEnv) evalSum(e ESum) SV {
 	x := env.X
 	c := x.C
@@ -446,54 +492,247 @@ func (env *SpecEnv) evalSum(e ESum) SV {
 	bv := c.NewBound(e.Var, SInt)
 	sub.Vars[e.Var] = SV{VInt{bv}, tInt}
 	body := sub.evalInt(e.Body)
-	if body.open && mentionsOtherBound(body, []*Term{bv}) {
-		specFail("sum body mentions an outer bound variable")
+	// outer bound variables become parameters
+	var params []*Term
+	for _, v := range append(freeBoundVars(body), freeBoundVars(lo)...) {
+		if v == bv {
+			continue
+		}
+		dup := false
+		for _, p := range params {
+			if p == v {
+				dup = true
+			}
+		}
+		if !dup {
+			params = append(params, v)
+		}
 	}
-	// canonical key: body with the bound variable replaced by a fixed marker
-	marker := c.Const("sum!marker", SInt)
-	canon := c.Subst(body, map[*Term]*Term{bv: marker})
-	key := fmt.Sprintf("%d|%d", canon.id, lo.id)
+	// canonical key: bound variables replaced by fixed markers
+	m := map[*Term]*Term{bv: c.Const("sum!marker", SInt)}
+	for i, p := range params {
+		m[p] = c.Const(fmt.Sprintf("sum!pmarker%d", i), p.sort)
+	}
+	canon := c.Subst(body, m)
+	canonLo := c.Subst(lo, m)
+	key := fmt.Sprintf("%d|%d|%d", canon.id, canonLo.id, len(params))
 	si, ok := x.sums[key]
 	if !ok {
-		si = &sumInfo{fn: c.FreshFun("sum", []Sort{SInt}, SInt), lo: lo, bv: bv, body: body, pos: e.Pos}
+		sorts := make([]Sort, 0, len(params)+1)
+		for _, p := range params {
+			sorts = append(sorts, p.sort)
+		}
+		sorts = append(sorts, SInt)
+		si = &sumInfo{fn: c.FreshFun("sum", sorts, SInt), lo: lo, bv: bv, body: body, pos: e.Pos, params: params}
+		si.lim = c.Fun(si.fn.Name+"!lim", sorts, SInt)
 		x.sums[key] = si
+		// fresh quantified copies of the parameters
+		var qp []*Term
+		pm := map[*Term]*Term{}
+		for _, p := range params {
+			q := c.NewBound("p", p.sort)
+			qp = append(qp, q)
+			pm[p] = q
+		}
+		inst := func(t *Term, at *Term) *Term {
+			mm := map[*Term]*Term{bv: at}
+			for k, v := range pm {
+				mm[k] = v
+			}
+			return c.Subst(t, mm)
+		}
+		app := func(f *FunDecl, at *Term) *Term { return c.Apply(f, append(append([]*Term{}, qp...), at)...) }
 		n := c.NewBound("n", SInt)
-		fn := c.Subst(body, map[*Term]*Term{bv: n})
-		sn := c.Apply(si.fn, n)
-		sn1 := c.Apply(si.fn, c.Add(n, c.Int(1)))
-		x.assumeGlobal(c.Eq(c.Apply(si.fn, lo), c.Int(0)))
-		x.assumeGlobal(c.Forall([]*Term{n}, c.Implies(c.Le(lo, n), c.Eq(sn1, c.Add(sn, fn))), []*Term{sn}))
-		// lemma: every summand is non-negative (checked once per sum function) ...
+		loq := inst(lo, n)
+		sn := app(si.fn, n)
+		ln := app(si.lim, n)
+		vars := func(extra ...*Term) []*Term { return append(append([]*Term{}, qp...), extra...) }
+		x.assumeGlobal(c.Forall(vars(n), c.Eq(sn, ln), []*Term{sn}))
+		zero := c.Eq(app(si.lim, loq), c.Int(0))
+		if len(qp) > 0 {
+			zero = c.Forall(vars(), zero, []*Term{app(si.lim, loq)})
+		}
+		x.assumeGlobal(zero)
+		fprev := inst(body, c.Sub(n, c.Int(1)))
+		x.assumeGlobal(c.Forall(vars(n), c.Implies(c.Lt(loq, n),
+			c.Eq(sn, c.Add(app(si.lim, c.Sub(n, c.Int(1))), fprev))), []*Term{sn}))
+		fn := inst(body, n)
 		if !x.dry {
 			name := fmt.Sprintf("%s/lemma[sum-nonneg:%s]", x.unitName, si.fn.Name)
-			goal := c.Forall([]*Term{n}, c.Implies(c.Le(lo, n), c.Le(c.Int(0), fn)))
+			goal := c.Forall(vars(n), c.Implies(c.Le(loq, n), c.Le(c.Int(0), fn)))
 			o := &Oblig{Name: name, Kind: "lemma", Label: "sum-nonneg", Unit: x.unitName, Goal: goal,
 				NAssume: len(x.assumes), Src: "summands are non-negative: " + e.Pos, Self: -1}
 			x.obligs = append(x.obligs, o)
 		}
-		// ... hence partial sums are monotone (induction on b-a; meta-theorem of the engine)
 		a := c.NewBound("a", SInt)
 		b := c.NewBound("b", SInt)
-		sa := c.Apply(si.fn, a)
-		sb := c.Apply(si.fn, b)
-		x.assumeGlobal(c.Forall([]*Term{a, b}, c.Implies(c.And(c.Le(lo, a), c.Le(a, b)), c.Le(sa, sb)), []*Term{sa, sb}))
-		// extensionality against earlier sums from the same source position
+		sa := app(si.lim, a)
+		sb := app(si.lim, b)
+		x.assumeGlobal(c.Forall(vars(a, b), c.Implies(c.And(c.Le(loq, a), c.Le(a, b)), c.Le(sa, sb)), []*Term{sa, sb}))
+		// strict form: the partial sum up to and including a is below any later one (no new sum terms)
+		x.assumeGlobal(c.Forall(vars(a, b), c.Implies(c.And(c.Le(loq, a), c.Lt(a, b)), c.Le(c.Add(sa, inst(body, a)), sb)), []*Term{sa, sb}))
 		for _, other := range x.sumList {
 			if other.pos != si.pos {
 				continue
 			}
-			m := c.NewBound("m", SInt)
+			mq := c.NewBound("m", SInt)
 			j := c.NewBound("j", SInt)
-			f1 := c.Subst(si.body, map[*Term]*Term{si.bv: j})
-			f2 := c.Subst(other.body, map[*Term]*Term{other.bv: j})
-			same := c.Forall([]*Term{j}, c.Implies(c.And(c.Le(lo, j), c.Lt(j, m)), c.Eq(f1, f2)))
-			s1 := c.Apply(si.fn, m)
-			s2 := c.Apply(other.fn, m)
-			x.assumeGlobal(c.Forall([]*Term{m}, c.Implies(c.And(c.Eq(lo, other.lo), same), c.Eq(s1, s2)), []*Term{s1, s2}))
+			f1 := inst(si.body, j)
+			om := map[*Term]*Term{other.bv: j}
+			var oq []*Term
+			shared := len(other.params) == len(params)
+			for i, p := range other.params {
+				if shared {
+					om[p] = qp[i]
+					oq = append(oq, qp[i])
+				} else {
+					q := c.NewBound("r", p.sort)
+					om[p] = q
+					oq = append(oq, q)
+				}
+			}
+			f2 := c.Subst(other.body, om)
+			olo := c.Subst(other.lo, om)
+			same := c.Forall([]*Term{j}, c.Implies(c.And(c.Le(loq, j), c.Lt(j, mq)), c.Eq(f1, f2)))
+			s1 := app(si.lim, mq)
+			s2 := c.Apply(other.lim, append(append([]*Term{}, oq...), mq)...)
+			body := c.Implies(c.And(c.Eq(loq, olo), same), c.Eq(s1, s2))
+			if shared {
+				x.assumeGlobal(c.Forall(vars(mq), body, []*Term{s1}, []*Term{s2}))
+			} else {
+				// different parameterisations of the same sum (e.g. by record index vs. by record):
+				// relate them when both partial sums are present
+				all := append(append(append([]*Term{}, qp...), oq...), mq)
+				x.assumeGlobal(c.Forall(all, body, []*Term{s1, s2}))
+			}
 		}
 		x.sumList = append(x.sumList, si)
 	}
-	return SV{VInt{c.Apply(si.fn, hi)}, nil}
+	if hi.open || len(params) > 0 {
+		// under a quantifier the limited synonym is used: instances of the enclosing
+		// quantifier then create no unfoldable sum terms (no matching loops)
+		return SV{VInt{c.Apply(si.lim, append(append([]*Term{}, params...), hi)...)}, nil}
+	}
+	return SV{VInt{c.Apply(si.fn, append(append([]*Term{}, params...), hi)...)}, nil}
+}
+
+type sumPoint struct {
+	args []*Term // actual parameters
+	at   *Term
+}
+
+// sumGround pre-instantiates the sum axioms at a ground application S(args, hi)
+// (and its neighbours hi-1, hi+1): definitional unfolding, extensionality
+// against related sums, monotonicity between known points. The quantified
+// axioms remain for applications under quantifiers; these ground instances make
+// proofs independent of the solvers' instantiation heuristics.
+func (x *Exec) sumGround(si *sumInfo, args []*Term, hi *Term) {
+	if hi.open {
+		return
+	}
+	for _, a := range args {
+		if a.open {
+			return
+		}
+	}
+	c := x.C
+	key := fmt.Sprintf("%d", hi.id)
+	for _, a := range args {
+		key += fmt.Sprintf(",%d", a.id)
+	}
+	if si.done == nil {
+		si.done = map[string]bool{}
+	}
+	if si.done[key] {
+		return
+	}
+	si.done[key] = true
+	inst := func(t *Term, at *Term) *Term {
+		mm := map[*Term]*Term{si.bv: at}
+		for i, p := range si.params {
+			mm[p] = args[i]
+		}
+		return c.Subst(t, mm)
+	}
+	app := func(f *FunDecl, at *Term) *Term { return c.Apply(f, append(append([]*Term{}, args...), at)...) }
+	lo := inst(si.lo, hi)
+	one := c.Int(1)
+	pts := []*Term{c.Sub(hi, one), hi, c.Add(hi, one)}
+	x.assumeGlobal(c.Eq(app(si.fn, hi), app(si.lim, hi)))
+	x.assumeGlobal(c.Implies(c.Lt(lo, hi), c.Eq(app(si.lim, hi), c.Add(app(si.lim, c.Sub(hi, one)), inst(si.body, c.Sub(hi, one))))))
+	x.assumeGlobal(c.Implies(c.Le(lo, hi), c.Eq(app(si.lim, c.Add(hi, one)), c.Add(app(si.lim, hi), inst(si.body, hi)))))
+	x.assumeGlobal(c.Implies(c.Le(hi, lo), c.Implies(c.Eq(hi, lo), c.Eq(app(si.lim, hi), c.Int(0)))))
+	// monotonicity between the new points and the known ones (same function, same parameters)
+	for _, p := range pts {
+		for _, q := range si.points {
+			same := len(q.args) == len(args)
+			for i := range args {
+				if same && q.args[i] != args[i] {
+					same = false
+				}
+			}
+			if !same {
+				continue
+			}
+			x.assumeGlobal(c.Implies(c.And(c.Le(lo, p), c.Le(p, q.at)), c.Le(app(si.lim, p), app(si.lim, q.at))))
+			x.assumeGlobal(c.Implies(c.And(c.Le(lo, q.at), c.Le(q.at, p)), c.Le(app(si.lim, q.at), app(si.lim, p))))
+		}
+	}
+	x.assumeGlobal(c.Implies(c.Le(lo, c.Sub(hi, one)), c.Le(app(si.lim, c.Sub(hi, one)), app(si.lim, hi))))
+	x.assumeGlobal(c.Implies(c.Le(lo, hi), c.Le(app(si.lim, hi), app(si.lim, c.Add(hi, one)))))
+	for _, p := range pts {
+		si.points = append(si.points, sumPoint{args, p})
+	}
+	// extensionality against related sums at all points known for either
+	for _, other := range x.sumList {
+		if other == si || other.pos != si.pos {
+			continue
+		}
+		x.sumExtGround(si, other)
+	}
+}
+
+// sumExtGround: ground instances of extensionality between two related sums at
+// every pair of known points with provably-comparable positions.
+func (x *Exec) sumExtGround(a, b *sumInfo) {
+	c := x.C
+	for _, pa := range a.points {
+		for _, pb := range b.points {
+			k := fmt.Sprintf("%s|%s|%d|%d", a.fn.Name, b.fn.Name, pa.at.id, pb.at.id)
+			for _, t := range pa.args {
+				k += fmt.Sprintf(",%d", t.id)
+			}
+			k += ";"
+			for _, t := range pb.args {
+				k += fmt.Sprintf(",%d", t.id)
+			}
+			if x.extDone[k] {
+				continue
+			}
+			x.extDone[k] = true
+			if pa.at != pb.at && !(pa.at.ival == nil && pb.at.ival == nil) {
+				// different literal/non-literal positions are compared only when syntactically equal
+				continue
+			}
+			j := c.NewBound("j", SInt)
+			ma := map[*Term]*Term{a.bv: j}
+			for i, p := range a.params {
+				ma[p] = pa.args[i]
+			}
+			mb := map[*Term]*Term{b.bv: j}
+			for i, p := range b.params {
+				mb[p] = pb.args[i]
+			}
+			fa := c.Subst(a.body, ma)
+			fb := c.Subst(b.body, mb)
+			loa := c.Subst(a.lo, ma)
+			lob := c.Subst(b.lo, mb)
+			same := c.Forall([]*Term{j}, c.Implies(c.And(c.Le(loa, j), c.Lt(j, pa.at)), c.Eq(fa, fb)))
+			sa := c.Apply(a.lim, append(append([]*Term{}, pa.args...), pa.at)...)
+			sb := c.Apply(b.lim, append(append([]*Term{}, pb.args...), pb.at)...)
+			x.assumeGlobal(c.Implies(c.And(c.Eq(loa, lob), c.Eq(pa.at, pb.at), same), c.Eq(sa, sb)))
+		}
+	}
 }
 
 // ---- selectors / indexing ----
@@ -925,6 +1164,24 @@ func (env *SpecEnv) evalCall(e ECall) SV {
 		}
 		return SV{x.Sh.Unflatten(elem, ts), elem}
 	}
+	if af, ok := x.W.Specs.Abstracts[e.Fn]; ok {
+		var sorts []Sort
+		var args []*Term
+		for i, p := range af.Params {
+			a := env.eval(e.Args[i])
+			if p.Type == "bool" {
+				sorts = append(sorts, SBool)
+				args = append(args, a.V.(VBool).T)
+			} else {
+				sorts = append(sorts, SInt)
+				args = append(args, a.V.(VInt).T)
+			}
+		}
+		if af.Ret == "bool" {
+			return SV{VBool{c.Apply(c.Fun("abs!"+af.Name, sorts, SBool), args...)}, tBool}
+		}
+		return SV{VInt{c.Apply(c.Fun("abs!"+af.Name, sorts, SInt), args...)}, nil}
+	}
 	// pure function
 	if pf, ok := x.W.Specs.Pures[e.Fn]; ok {
 		if len(e.Args) != len(pf.Params) {
@@ -973,3 +1230,83 @@ func (env *SpecEnv) resolveParamType(s string) types.Type {
 }
 
 var _ = big.NewInt
+
+// indexPatterns chooses explicit triggers for a spec quantifier: array reads
+// whose index is slot(off, v) (or v itself) for a bound variable v. Leaving the
+// choice to the solver tends to pick bare slot(0, v), which matches every index
+// term of every zero-offset slice (matching loops).
+func (x *Exec) indexPatterns(body *Term, bvs []*Term) [][]*Term {
+	if len(bvs) != 1 || os.Getenv("GOVC_NOIDXPAT") != "" {
+		return nil
+	}
+	v := bvs[0]
+	var cands []*Term
+	seen := map[int]bool{}
+	var rec func(t *Term, inner map[string]bool)
+	rec = func(t *Term, inner map[string]bool) {
+		if !t.open {
+			return
+		}
+		if len(t.vars) > 0 {
+			ni := map[string]bool{}
+			for k := range inner {
+				ni[k] = true
+			}
+			for _, bv := range t.vars {
+				ni[bv.Name] = true
+			}
+			rec(t.args[0], ni)
+			return
+		}
+		if seen[t.id] {
+			return
+		}
+		seen[t.id] = true
+		if t.op == "select" && len(t.args) == 2 {
+			idx := t.args[1]
+			direct := idx == v || (idx.op == "slot" && len(idx.args) == 2 && idx.args[1] == v)
+			if direct {
+				ok := true
+				for _, fv := range freeBoundVars(t) {
+					if inner[fv.op] {
+						ok = false
+					}
+				}
+				if ok {
+					if idx.op == "slot" && idx.args[0].ival == nil {
+						// a symbolic offset identifies the slice: the bare index term is a safe, more permissive trigger
+						cands = append(cands, idx)
+					} else {
+						cands = append(cands, t)
+					}
+				}
+			}
+		}
+		for _, a := range t.args {
+			rec(a, inner)
+		}
+	}
+	rec(body, map[string]bool{})
+	{
+		var uniq []*Term
+		seenC := map[int]bool{}
+		for _, cnd := range cands {
+			if !seenC[cnd.id] {
+				seenC[cnd.id] = true
+				uniq = append(uniq, cnd)
+			}
+		}
+		cands = uniq
+	}
+	if len(cands) == 0 {
+		return nil
+	}
+	if len(cands) > 3 {
+		cands = cands[:3]
+	}
+	var out [][]*Term
+	for _, cnd := range cands {
+		out = append(out, []*Term{cnd})
+	}
+	return out
+}
